@@ -569,10 +569,19 @@ static Token *paste(Token *lhs, Token *rhs) {
   return tok;
 }
 
+// Returns true if the variable arguments contain any token once they
+// are fully macro-expanded (which is what __VA_OPT__ asks).
 static bool has_varargs(MacroArg *args) {
-  for (MacroArg *ap = args; ap; ap = ap->next)
-    if (!strcmp(ap->name, "__VA_ARGS__"))
-      return ap->tok->kind != TK_EOF;
+  for (MacroArg *ap = args; ap; ap = ap->next) {
+    if (strcmp(ap->name, "__VA_ARGS__"))
+      continue;
+
+    Token copy = {};
+    Token *last = &copy;
+    for (Token *t = ap->tok; t; t = t->next)
+      last = last->next = copy_token(t);
+    return preprocess2(copy.next)->kind != TK_EOF;
+  }
   return false;
 }
 
